@@ -25,8 +25,7 @@ class StoreSpy(object):
                     st = {}
                     for a1, d in store._dict.items():
                         for a0, q in d.items():
-                            if not q.empty():
-                                st[(a0, a1)] = tuple(q._queue)
+                            st[(a0, a1)] = tuple(q._queue)
                     r.states = {refstore.freeze(st)}
                 store.__dict__["_verif_ref"] = r
                 store.__dict__["_verif_depth"] = 0
@@ -76,7 +75,7 @@ class StoreSpy(object):
                     if not ok:
                         spy.violations.append("%s%r: %s" % (name, a[:3], r.refuted))
                     if r.states:
-                        spy.max_pending_pairs = max(spy.max_pending_pairs, max(len(st) for st in r.states))
+                        spy.max_pending_pairs = max(spy.max_pending_pairs, max(len(refstore.pending(st)) for st in r.states))
                 return res
             setattr(self.cls, name, w)
         for m in self.METHODS:
